@@ -1702,6 +1702,10 @@ def compile_function_def(compiler, expr, root, is_async, decorators, tp, name, p
     decorators, ret, _ = compiler._compile_collect(decorators[0] if decorators else [])
     args, ret2 = compile_lambda_list(compiler, params)
     ret += ret2
+    if returns is not None:
+        # Like the decorators and the parameters, the return annotation
+        # is evaluated before the name is bound.
+        returns = compiler.compile(returns)
     name = mangle(compiler._nonconst(name))
     compiler.scope.define(name)
     with compiler.local_state(), compiler.scope.create(ScopeFn, args, is_async) as scope:
@@ -1727,7 +1731,8 @@ def compile_function_node(compiler, expr, node, decorators, tp, name, args, retu
 
     if returns is not None:
         # Any statements the annotation needs go before the definition.
-        returns = compiler.compile(returns)
+        if not isinstance(returns, Result):
+            returns = compiler.compile(returns)
         ret += returns
         returns = returns.force_expr
 
